@@ -117,6 +117,48 @@ elif mode == "reg":
                 found.append(False)
     keys = sorted(k for k in plugins._PLUGINS.get(job["package"], {}).keys())
     sys.stdout.write("\n@@RESULT@@" + json.dumps({"found": found, "keys": keys}) + "\n")
+elif mode == "prefixhist":
+    # {"package", "steps": [[route, short, prefix], ...], "file": path}: list the package, resolve the short names through the
+    # public routes with the given prefixes in order (l load, g get, c call, n names(plugins=[short], prefix), e exists(short)),
+    # list again.  Every answer is the module the request ended in (or "error:<class>" / a bool for e).
+    import contextlib
+    import io
+    import warnings
+
+    warnings.simplefilter("ignore")
+    from midgard.dev import plugins
+
+    pkg = job["package"]
+    out = []
+    with contextlib.redirect_stdout(io.StringIO()):
+        before = list(plugins.names(pkg))
+        for route, short, prefix in job["steps"]:
+            try:
+                if route == "l":
+                    ans = plugins.load(pkg, short, prefix=prefix)
+                elif route == "g":
+                    ans = plugins.get(pkg, short, prefix=prefix).function.__module__.rsplit(".", 1)[-1]
+                elif route == "n":
+                    ans = ",".join(plugins.names(pkg, plugins=[short], prefix=prefix))
+                elif route == "e":
+                    ans = bool(plugins.exists(pkg, short))
+                else:
+                    obj = plugins.call(pkg, short, prefix=prefix, file_path=job["file"], encoding=None)
+                    ans = "class:" + type(obj).__module__.rsplit(".", 1)[-1] + "." + type(obj).__name__
+            except BaseException as e:  # noqa
+                ans = "error:" + type(e).__name__
+            out.append(ans)
+        after = list(plugins.names(pkg))
+        # what a request by full name constructs (asked last, so that it cannot help the requests above)
+        full = {}
+        for route, short, prefix in job["steps"]:
+            if route == "c":
+                try:
+                    obj = plugins.call(pkg, f"{prefix}_{short}", file_path=job["file"], encoding=None)
+                    full[f"{prefix}_{short}"] = "class:" + type(obj).__module__.rsplit(".", 1)[-1] + "." + type(obj).__name__
+                except BaseException as e:  # noqa
+                    full[f"{prefix}_{short}"] = "error:" + type(e).__name__
+    sys.stdout.write("\n@@RESULT@@" + json.dumps({"before": before, "after": after, "answers": out, "by_full_name": full}) + "\n")
 elif mode == "plughist":
     import contextlib
     import inspect
